@@ -322,9 +322,47 @@ func TestConcChild(t *testing.T) {
 			bz, _ := enc.TxConfig.TxEncoder()(b.GetTx())
 			return bz
 		}
+		// the websocket-style subscriptions go through go-ethereum's RPC server, in process
+		rpcSrv := rpc.NewServer()
+		require.NoError(t, rpcSrv.RegisterName("eth", api))
+		rpcCl := rpc.DialInProc(rpcSrv)
 		stop := make(chan struct{})
 		var wg sync.WaitGroup
-		var ncalls, nbad int64
+		var ncalls, nbad, nsubs int64
+		for g := 0; g < 3; g++ {
+			wg.Add(1)
+			go func(g int) {
+				defer wg.Done()
+				r := hx.NewRng(seed ^ uint64(g+11)*0x9e3779b97f4a7c15)
+				for {
+					select {
+					case <-stop:
+						return
+					default:
+					}
+					ctx, cancel := context.WithTimeout(context.Background(), 30*time.Second)
+					var sub *rpc.ClientSubscription
+					var err error
+					switch r.Intn(3) {
+					case 0:
+						ch := make(chan map[string]interface{}, 64)
+						sub, err = rpcCl.EthSubscribe(ctx, ch, "newHeads")
+					case 1:
+						ch := make(chan common.Hash, 64)
+						sub, err = rpcCl.EthSubscribe(ctx, ch, "newPendingTransactions")
+					default:
+						ch := make(chan ethtypes.Log, 64)
+						sub, err = rpcCl.EthSubscribe(ctx, ch, "logs", map[string]interface{}{"topics": []interface{}{nil, tps[r.Intn(len(tps))].Hex()}})
+					}
+					cancel()
+					if err == nil {
+						atomic.AddInt64(&nsubs, 1)
+						time.Sleep(time.Duration(r.Intn(4000)) * time.Microsecond)
+						sub.Unsubscribe()
+					}
+				}
+			}(g)
+		}
 		watchdog := func(what string, fn func()) {
 			done := make(chan struct{})
 			go func() { fn(); close(done) }()
@@ -453,7 +491,7 @@ func TestConcChild(t *testing.T) {
 		go func() { wg.Wait(); close(finished) }()
 		select {
 		case <-finished:
-			fmt.Printf("CHILD-RESULT survived api-calls=%d logs-not-matching-their-filter=%d\n", atomic.LoadInt64(&ncalls), atomic.LoadInt64(&nbad))
+			fmt.Printf("CHILD-RESULT survived api-calls=%d subscriptions=%d logs-not-matching-their-filter=%d\n", atomic.LoadInt64(&ncalls), atomic.LoadInt64(&nsubs), atomic.LoadInt64(&nbad))
 		case <-time.After(90 * time.Second):
 			fmt.Printf("CHILD-RESULT deadlock api-calls=%d\n", atomic.LoadInt64(&ncalls))
 		}
